@@ -177,18 +177,21 @@ structure Token where
 def findPrefix (tbl : List (B × Nat)) (input : B) : Option (B × Nat) :=
   tbl.find? (fun p => p.1.isPrefixOf input)
 
+/-- the token type after the first two steps of `setType`: the `(` / `)` tests and the reserved words -/
+def retype (t : Token) : Nat :=
+  let ty := if t.text = [40] then tokParenOpen else t.typ
+  let ty := if t.text = [41] then tokParenClose else ty
+  match reservedWords.find? (fun w => t.text = w.1 && t.input = w.1) with
+  | some w => w.2
+  | none => ty
+
 /-- `(*token).setType`; `t.Text[len(pref):]` is the unchecked slice -/
 def setType (t : Token) : Outcome Token :=
-  let t := if t.text = [40] then { t with typ := tokParenOpen } else t
-  let t := if t.text = [41] then { t with typ := tokParenClose } else t
-  let t := match reservedWords.find? (fun w => t.text = w.1 && t.input = w.1) with
-    | some w => { t with typ := w.2 }
-    | none => t
   match findPrefix prefixes t.input with
-  | none => .ok t
+  | none => .ok ⟨retype t, t.text, t.input⟩
   | some (pref, typ) =>
     (sliceFrom "setType:t.Text[len(pref):]" t.text pref.length).bind fun text =>
-    .ok { t with text := text, typ := typ }
+    .ok ⟨typ, text, t.input⟩
 
 /-- the `loop:` of `nextToken`: `(left, cur.Text, foundSpace)` at the `break`/end of input -/
 def ntLoop : Nat → B → Nat → B → Outcome (B × B × Bool)
